@@ -1090,6 +1090,8 @@ def job_simulate(job):
                     o_ = {}
                     for k, v in st.items():
                         ks = str(k)
+                        if v != v:
+                            continue
                         if ks in gname1 and not ks.isidentifier():
                             o_[gname1[ks]] = float_frac(v)
                         else:
@@ -1143,6 +1145,8 @@ def job_simulate(job):
                     out_ = {}
                     for k, v in d.items():
                         ks = str(k)
+                        if v != v:
+                            continue          # a goal over variables that are not assigned yet is reported as nan: left out
                         if ks in gname and not ks.isidentifier():
                             out_[gname[ks]] = float_frac(v)
                         else:
